@@ -7,6 +7,7 @@ package outlier
 // ---- C13: whole-set load. The grouping loop must cope with any element, including nil; the rebuild itself
 // (onRuleUpdate) is under a separate contract.
 //@ func onRuleUpdate(rawResRulesMap) err
+//@   requires[holds-the-update-lock]{C15} wlockcount(updateRuleMux) > 0
 //@   assumed
 //@ func LoadRules(rules) (changed, err)
 //@   props C13
@@ -67,3 +68,21 @@ package outlier
 //@   ensures[removed-only-if-not-recovered] gDeleted == old(gDeleted) + (old(has(r.status, node)) && !old(r.status[node]) ? 1 : 0)
 //@   ensures[forgotten] !has(r.status, node)
 //@   ensures[others-untouched] forall k Str :: k != node ==> has(r.status, k) == old(has(r.status, k)) && r.status[k] == old(r.status[k])
+
+// ---- C15: lock discipline of the rule tables (a load, store or use of the variable outside its lock is a data race)
+//@ guarded outlierRules by updateMux readers-also updateRuleMux {C15}
+//@ guarded breakerRules by updateMux readers-also updateRuleMux {C15}
+//@ guarded nodeBreakers by updateMux {C15}
+//@ guarded currentRules by updateRuleMux {C15}
+
+// called by LoadRulesOfResource with the update lock held (C15); its effect is not specified here
+//@ func onResourceRuleUpdate(res, rule) err
+//@   assumed
+//@   requires[holds-the-update-lock]{C15} wlockcount(updateRuleMux) > 0
+//@   modifies heap
+
+//@ func updateAllBreakers()
+//@   assumed
+//@   requires[holds-the-update-lock]{C15} wlockcount(updateRuleMux) > 0
+//@   modifies heap
+//@ lockorder updateRuleMux updateMux {C15}
